@@ -27,10 +27,21 @@
     en <i> <arg>...     client.Encode of the command as an array of bulks
         (same argument syntax, only b:/B:), output as for `wa`.
 
+    fr <i> <start> <preset> <bufsize> <cuts> <piece>...
+        the stream is read through the MODEL of a bufio.Reader of size <bufsize> (Model/RespFrag.lean)
+        over an underlying reader that returns it in the pieces <cuts>: comma separated lengths,
+        `<len>*<count>` for a repeated length, `.` for none; what the lengths do not cover is one
+        last piece; a length 0 is a read that returned `0, nil`; a leading `E` says the Go reader
+        returned io.EOF together with the last bytes (the model's `eofLast` reader: the error stays
+        pending in `b.err`; empty pieces are the model's `0, nil` reads). Output as for `dec`, then `#i q <len(p) of every underlying Read call that
+        returned data, up to the last command decoded completely>` (`.` if none).
+    frx  the same for a stream outside the quantifier: commands rendered as for `decx`, then `q`.
+
   Rendering of a byte string: lower-case hex ("-" when empty) up to 24 bytes,
   otherwise `<len>:<fnv1a64>`; argument lists are comma separated ("." if none).
 -/
 import GunYu.Model.Resp
+import GunYu.Model.RespFrag
 namespace GunYu.Drive.C12
 open GunYu GunYu.Resp
 
@@ -122,7 +133,49 @@ def loopX (i : String) (fuel start : Nat) : Nat → Bytes → Nat → Bool → L
       (if t then s!"#{i} c {render c.name} {renderList c.args} @~" else cmdLine i c (start + off'))
         :: loopX i fuel start k rest off' t
 
+/-- `<len>` or `<len>*<count>` -/
+def cutTok (t : String) : Option (List Nat) :=
+  match t.splitOn "*" with
+  | [a] => a.toNat?.map (fun a => [a])
+  | [a, n] =>
+    match a.toNat?, n.toNat? with
+    | some a, some n => some (List.replicate n a)
+    | _, _ => none
+  | _ => none
+
+def cutList (t0 : String) : Option (List Nat) :=
+  -- a leading `E`: the Go reader returned io.EOF together with the last bytes (the model's eofLast reader)
+  let t : String := if t0.startsWith "E" then String.ofList (t0.toList.drop 1) else t0
+  if t == "." then some []
+  else (t.splitOn ",").foldr (fun q acc => match cutTok q, acc with
+    | some a, some r => some (a ++ r)
+    | _, _ => none) (some [])
+
+/-- cut `inp` into pieces of the given lengths; the remainder is the last piece -/
+def cutUp : List Nat → Bytes → List Bytes
+  | [], inp => if inp.isEmpty then [] else [inp]
+  | c :: cs, inp => inp.take c :: cutUp cs (inp.drop c)
+
+def reqsText (q : List Nat) : String :=
+  if q.isEmpty then "." else ",".intercalate (q.map toString)
+
 def handle : List String → Option (List String)
+  | "fr" :: i :: start :: pre :: size :: cuts0 :: ps =>
+    match start.toNat?, pre.toNat?, size.toNat?, cutList cuts0, pieces ps with
+    | some st, some pre, some size, some cuts, some inp =>
+      let (cs, e, q) := decodeAllCReqs st pre size (cutUp cuts inp) (cuts0.startsWith "E")
+      some (cs.map (fun (c, off) => cmdLine i c off) ++ [s!"#{i} e {e.name}", s!"#{i} q {reqsText q}"])
+    | _, _, _, _, _ => some ["bad-op"]
+  | "frx" :: i :: start :: pre :: size :: cuts0 :: ps =>
+    match start.toNat?, pre.toNat?, size.toNat?, cutList cuts0, pieces ps with
+    | some st, some pre, some size, some cuts, some inp =>
+      let (cs, _, q) := decodeAllCReqs st pre size (cutUp cuts inp) (cuts0.startsWith "E")
+      let flat := decodeAllFrom st pre inp
+      -- the commands of the reader model are those of the plain model (theorem decodeAll_any_fragmentation);
+      -- the coarse rendering needs the position of the first inline command, taken from the plain loop
+      if cs != flat.1 then some [s!"#{i} model-mismatch"] else
+      some (loopX i (inp.length + 1) st (inp.length + 1) inp pre false ++ [s!"#{i} q {reqsText q}"])
+    | _, _, _, _, _ => some ["bad-op"]
   | "decx" :: i :: start :: pre :: _buf :: _frag :: _seed :: ps =>
     match start.toNat?, pre.toNat?, pieces ps with
     | some st, some pre, some inp => some (loopX i (inp.length + 1) st (inp.length + 1) inp pre false)
